@@ -8,7 +8,9 @@ No source hook in /repo is needed.
   set    -> SimSet planted as the module global `set` in composeinfo, images, treeinfo (Python resolves module globals
             before builtins); with the name removed productmd behaves as shipped
   _validate*  -> counting / fault-injecting wrappers around the REAL validators
-  _urlopen    -> guard (network must never be reached)
+  network     -> urllib.request.OpenerDirector.open is interposed (simnet.py): URLs on the simulated host are served from
+                 the run's disk by an in-process peer with injectable faults; any other URL fails the run (the real
+                 network must never be reached).  productmd.common._urlopen itself runs unmodified.
 
 One global CTX holds the state of the current run (reset per run).
 """
@@ -17,6 +19,7 @@ import random
 import sys
 
 from . import simfs
+from . import simnet
 from .util import mix
 
 PRODUCTMD_MODULES = ["common", "composeinfo", "images", "rpms", "modules", "extra_files",
@@ -67,6 +70,7 @@ class Ctx(object):
         self.faults = {}
         self.probes = {}
         self.urlopen_calls = 0
+        self.net = simnet.Peer(self)
         self.known_hits = {}
         self.dump_hashes = []
         self.real_set = bool(cfg.get("real_set"))
@@ -392,7 +396,7 @@ def install(repo=None):
     interpose()
     for name in SET_MODULES:
         mods[name].set = SimSet
-    mods["common"]._urlopen = _guard_urlopen
+    simnet.interpose()
     # validators: every class defined in a productmd module that derives from MetadataBase
     base = mods["common"].MetadataBase
     nwrapped = 0
